@@ -49,7 +49,7 @@ class C12(core.Check):
     chunk = 1500
     crosscheck_every = {'quick': 60, 'thorough': 60}
     required_buckets = {b: 3 for b in [
-        'kind:numeric_bytecode', 'kind:relative_address', 'kind:numeric_enumeration', 'numeric-enumeration:negative-member', 'kind:address', 'kind:valid_address',
+        'kind:numeric_bytecode', 'kind:relative_address', 'kind:numeric_enumeration', 'numeric-enumeration:negative-member', 'numeric-enumeration:two-tables-with-different-keys', 'kind:address', 'kind:valid_address',
         'kind:sliced-address', 'kind:width/numeric-arg', 'kind:width/numeric_bytecode', 'kind:width/indirect-offset',
         'kind:width/relative-offset', 'pos:min-1', 'pos:min', 'pos:max', 'pos:max+1', 'pos:start-1', 'pos:start', 'pos:end',
         'pos:end+1', 'pos:member', 'pos:neighbour', 'pos:negative', 'pos:umax', 'pos:umax+1', 'pos:smin', 'pos:smin-1',
@@ -57,7 +57,7 @@ class C12(core.Check):
         'rel:from-end', 'rel:from-start', 'slice:same-page', 'slice:other-page', 'w:non-byte-multiple', 'w:byte-multiple',
         'expect:ACCEPT', 'expect:REJECT', 'muted-statement', 'second-step-of-a-macro', 'value-as-expression',
         'kind:valid_address/indirect_numeric', 'kind:valid_address/deferred_numeric', 'output:none', 'output:none+listing',
-        'kind:sliced-address/zone-ends-inside-the-page', 'numeric-keys-in:json', 'numeric-keys-in:yaml',
+        'kind:sliced-address/zone-ends-inside-the-page', 'kind:sliced-address/narrow-slice', 'numeric-keys-in:json', 'numeric-keys-in:yaml',
         'kind:relative_address/one-bound-only', 'kind:index-code-of-an-indexed-register',
         'kind:relative_address/target-across-most-of-the-address-space']}
 
@@ -210,6 +210,13 @@ class C12(core.Check):
                         k_ = (v + len(members)) % len(forms)
                         for t_ in (forms[k_], forms[(k_ + 5) % len(forms)]):
                             yield self.one(conf, t_, {'id': 'o', 'val': v}, 0, ['kind:numeric_enumeration', 'pos:' + pos, 'value-as-expression'])
+        # a numeric enumeration with two tables of different key sets: a member is a value that both tables hold
+        for bkeys, akeys in (([1, 2, 4], [1, 2]), ([1, 2], [1, 2, 4]), ([0, 5, 9], [5, 9, 12]), ([-1, 3], [3])):
+            conf = {'type': 'numeric_enumeration', 'bytecode': {'size': 3, 'value_dict': {m: i + 1 for i, m in enumerate(bkeys)}},
+                    'argument': {'size': 8, 'byte_align': True, 'value_dict': {m: 0x40 + i for i, m in enumerate(akeys)}}}
+            for v in sorted(set(bkeys) | set(akeys) | {7}):
+                pos = 'member' if v in bkeys and v in akeys else ('in-one-table-only' if v in bkeys or v in akeys else 'neighbour')
+                yield self.one(conf, lit(v), {'id': 'o', 'val': v}, 0, ['kind:numeric_enumeration', 'numeric-enumeration:two-tables-with-different-keys', 'pos:' + pos])
         # address / valid_address in GLOBAL, redefined GLOBAL, named zone
         for ab in (8, 12, 16):
             top = (1 << ab) - 1
@@ -264,6 +271,17 @@ class C12(core.Check):
                                (0, 'address-0'), (page - 1, 'page-0-last')]:
                     yield self.one(conf, lit(v), {'id': 'o', 'val': v}, addr,
                                    ['kind:sliced-address', 'pos:' + pos, 'slice:' + ('same-page' if (v >> k) == (addr >> k) else 'other-page')])
+
+        # ... and targets that agree with the instruction's address in the bits right above the slice and differ further up only
+        for k, ab in ((4, 16), (4, 24), (8, 24), (6, 20)):
+            conf = {'type': 'address', 'argument': {'size': k, 'byte_align': False, 'slice_lsb': True, 'match_address_msb': True}}
+            page = 1 << k
+            for addr in (page * 3 + 2 + (1 << (2 * k)), page * 5 + (3 << (2 * k))):
+                for v, pos in [(addr ^ (1 << (2 * k)), 'differs-right-above-twice-the-slice-width'), (addr ^ (1 << (ab - 1)), 'differs-in-the-top-bit'),
+                               (addr ^ (1 << (2 * k + 1)), 'differs-above-twice-the-slice-width'), ((addr & ~(page - 1)) | 1, 'same-page')]:
+                    yield self.one(conf, lit(v), {'id': 'o', 'val': v}, addr,
+                                   ['kind:sliced-address', 'kind:sliced-address/narrow-slice', 'pos:' + pos,
+                                    'slice:' + ('same-page' if (v >> k) == (addr >> k) else 'other-page')], addr_bits=ab)
 
     def cases(self, tier, seed):
         # every third case also runs with the statement inside #mute .. #unmute: a muted statement is still checked
